@@ -40,7 +40,9 @@ type Time time.Time
 func NewTimeFromTimeSinceGPSEpoch(sinceEpoch time.Duration) Time {
 	t := gpsEpochTime.Add(sinceEpoch)
 	for _, ls := range leapSecondsTable {
-		if ls.Time.Before(t) {
+		// ls.Time is 23:59:59, the leap second (23:59:60) ends two seconds
+		// later on the not yet corrected time-scale.
+		if !t.Before(ls.Time.Add(time.Second + ls.Duration)) {
 			t = t.Add(-ls.Duration)
 		}
 	}
@@ -53,7 +55,8 @@ func NewTimeFromTimeSinceGPSEpoch(sinceEpoch time.Duration) Time {
 func (t Time) TimeSinceGPSEpoch() time.Duration {
 	var offset time.Duration
 	for _, ls := range leapSecondsTable {
-		if ls.Time.Before(time.Time(t)) {
+		// the offset changes at 00:00:00, after the leap second has elapsed
+		if !time.Time(t).Before(ls.Time.Add(time.Second)) {
 			offset += ls.Duration
 		}
 	}
